@@ -18,10 +18,10 @@ feat=""
 if grep -qi "alloc\|all-features" $out/demo.rs $out/notes.md 2>/dev/null; then feat="--all-features"; fi
 cp $out/demo.rs tests/seed_demo.rs
 echo "== demo WITHOUT patch (expect pass) [cargo test --offline $feat --test seed_demo]" >> $log
-cargo test --offline -j 6 $feat --test seed_demo >> $log 2>&1; r_clean=$?
+cargo test --offline -j 6 $feat $DEMO_FLAGS --test seed_demo >> $log 2>&1; r_clean=$?
 git apply $out/patch.diff >> $log 2>&1; r_apply=$?
 echo "== demo WITH patch (expect fail)" >> $log
-cargo test --offline -j 6 $feat --test seed_demo >> $log 2>&1; r_mut=$?
+cargo test --offline -j 6 $feat $DEMO_FLAGS --test seed_demo >> $log 2>&1; r_mut=$?
 rm tests/seed_demo.rs
 echo "== full suite WITH patch (expect pass) [cargo test --workspace --no-fail-fast --offline]" >> $log
 cargo test --workspace --no-fail-fast --offline -j 6 >> $log 2>&1; r_suite=$?
